@@ -76,6 +76,17 @@ let case_adapter h : string =
 
 let case_group h : string =
   let n = nat_of_int (int_of_string (get h "n")) in
+  if get_def h "via" "fn" = "textdiff" then (
+    let s = parse_seqs h in
+    let orc = oracles_of s in
+    match textdiff_ops (parse_alg (get h "alg")) None !dbg false orc (nat_of_int (Array.length s.olda)) (nat_of_int (Array.length s.newa)) with
+    | Ok (ops, _) ->
+        let gs = group_diff_ops ops n in
+        let f gs = if gs = [] then "-" else String.concat "|" (List.map fmt_ops gs) in
+        Printf.sprintf "ops=%s groups=%s hunks=%s" (fmt_ops ops) (f gs) (f gs)
+    | Panic -> "PANIC"
+    | OutOfFuel -> "OUTOFFUEL")
+  else
   let ops = calls_to_ops (parse_calls (get h "ops")) in
   let gs = group_diff_ops ops n in
   if gs = [] then "groups=-" else "groups=" ^ String.concat "|" (List.map fmt_ops gs)
@@ -111,7 +122,7 @@ let case_iter h : string =
     in
     let recap = capture_calls (List.map op_to_call ops) in
     let j v = if v = [] then "-" else String.concat "," v in
-    Printf.sprintf "changes=%s slices=%s recap=%s all_same=1" (j ch) (j sl) (fmt_ops recap)
+    Printf.sprintf "changes=%s slices=%s recap=%s all_same=1 ref_same=1" (j ch) (j sl) (fmt_ops recap)
   with
   | P -> "PANIC"
   | F -> "OUTOFFUEL"
